@@ -28,6 +28,11 @@ pub trait Hist: Send {
     fn boxed_clone(&self) -> Box<dyn Hist>;
     fn iter_items(&self) -> Vec<((f64, f64), u64)>;
     fn into_iter_items(&self) -> Vec<((f64, f64), u64)>;
+    /// iteration through the standard adaptors: nth(k), skip(k), step_by(k), last, count
+    fn iter_nth(&self, k: usize) -> Option<((f64, f64), u64)>;
+    fn iter_skip(&self, k: usize) -> Vec<((f64, f64), u64)>;
+    fn iter_step_by(&self, k: usize) -> Vec<((f64, f64), u64)>;
+    fn iter_count_last(&self) -> (usize, Option<((f64, f64), u64)>);
     fn widths(&self) -> Vec<f64>;
     fn centers(&self) -> Vec<f64>;
     fn normalized_bins(&self) -> Vec<f64>;
@@ -89,6 +94,18 @@ macro_rules! hist_impl {
                     v.push(it);
                 }
                 v
+            }
+            fn iter_nth(&self, k: usize) -> Option<((f64, f64), u64)> {
+                self.iter().nth(k)
+            }
+            fn iter_skip(&self, k: usize) -> Vec<((f64, f64), u64)> {
+                self.iter().skip(k).collect()
+            }
+            fn iter_step_by(&self, k: usize) -> Vec<((f64, f64), u64)> {
+                self.iter().step_by(k.max(1)).collect()
+            }
+            fn iter_count_last(&self) -> (usize, Option<((f64, f64), u64)>) {
+                (self.iter().count(), self.iter().last())
             }
             fn widths(&self) -> Vec<f64> {
                 HistTrait::widths(self).collect()
@@ -223,6 +240,18 @@ pub mod cg {
                         v.push(it);
                     }
                     v
+                }
+                fn iter_nth(&self, k: usize) -> Option<((f64, f64), u64)> {
+                    self.iter().nth(k)
+                }
+                fn iter_skip(&self, k: usize) -> Vec<((f64, f64), u64)> {
+                    self.iter().skip(k).collect()
+                }
+                fn iter_step_by(&self, k: usize) -> Vec<((f64, f64), u64)> {
+                    self.iter().step_by(k.max(1)).collect()
+                }
+                fn iter_count_last(&self) -> (usize, Option<((f64, f64), u64)>) {
+                    (self.iter().count(), self.iter().last())
                 }
                 fn widths(&self) -> Vec<f64> {
                     CH::<$n>::widths(self).collect()
